@@ -248,7 +248,25 @@ def _plane_through_sphere(rng):
 
 # roots whose arguments must fit together (a vertex loop and the plane it lies in; a line or plane that actually meets the sphere):
 # generated jointly
-CUSTOM = {'Face3D_init_plane': _face_and_plane, 'intersect_line3d_sphere_seg': _line_through_sphere('seg'),
+def _face_loop_pair(rng):
+    """Face3D._remove_colinear(pts_3d, pts_2d, tol): a face, its boundary (with exactly collinear points inserted on some edges) and
+    the 2D polygon of the same points in the face plane"""
+    from ladybug_geometry.geometry2d import Polygon2D
+    f = Bd.face3d(rng, nholes=0, n=rng.randint(4, 7))
+    pl = f.plane
+    p2 = [pl.xyz_to_xy(v) for v in f.boundary]
+    loop = []
+    for i, a in enumerate(p2):
+        b = p2[(i + 1) % len(p2)]
+        loop.append(a)
+        if rng.random() < 0.5:
+            t = rng.choice([0.25, 0.5, 0.75])
+            loop.append(Bd.P2((a.x + (b.x - a.x) * t, a.y + (b.y - a.y) * t)))
+    poly = Polygon2D(loop)
+    return [f, [pl.xy_to_xyz(q) for q in loop], poly, 0.01]
+
+
+CUSTOM = {'Face3D__remove_colinear': _face_loop_pair, 'Face3D_init_plane': _face_and_plane, 'intersect_line3d_sphere_seg': _line_through_sphere('seg'),
           'intersect_line3d_sphere_ray': _line_through_sphere('ray'), 'intersect_plane_sphere': _plane_through_sphere}
 # roots whose evaluation inside Coq is slow (rational blow-up through the square root): one input, thorough tier only
 SLOW = {'Face3D_init', 'Face3D_sub_rects_from_rect_ratio', 'Face3D_sub_rects_from_rect_dimensions'}
